@@ -4,6 +4,10 @@ From Coq Require Import NArith ZArith List Bool.
 From DictIO Require Import Chars Str Value Scalar SDict Expr TreeSpec MiscSpec LayoutSpec SemProofs.
 Import ListNotations.
 
+(* for the non-vacuity examples: [word_name] of a concrete name, a concrete [<] on nat *)
+Ltac word_name_tac := split; [discriminate | repeat (constructor; [reflexivity|]); constructor].
+Ltac lt_tac := apply PeanoNat.Nat.ltb_lt; vm_compute; reflexivity.
+
 (* a reference is replaced as a whole token and the value is inserted literally *)
 Theorem C05_subst_whole_token : forall name val post fuel, word_name name ->
   (match post with c :: _ => is_word c = false /\ c <> c_lbrk | [] => True end) ->
@@ -13,6 +17,26 @@ Theorem C05_subst_whole_token : forall name val post fuel, word_name name ->
 Proof. exact subst_whole_token. Qed.
 Print Assumptions C05_subst_whole_token.
 
+(* non-vacuity: the reference $ab in front of an expression that also mentions the longer name $abc and the indexed
+   $ab[0]; the fuel is the one subst_refs uses (length + 1).  The second part evaluates the whole substitution. *)
+Example C05_subst_whole_token_nonvacuous :
+  let name := of_string "ab" in let val := of_string "[1, 2]" in let post := of_string " + $abc * $ab[0] - $ab" in
+  let fuel := S (length (ref_of name ++ post)) in
+  word_name name /\
+  (match post with c :: _ => is_word c = false /\ c <> c_lbrk | [] => True end) /\
+  (length (ref_of name ++ post) < fuel)%nat /\
+  subst_token fuel (ref_of name) val (ref_of name ++ post) = val ++ subst_token (fuel - 1) (ref_of name) val post /\
+  subst_token fuel (ref_of name) val (ref_of name ++ post) = of_string "[1, 2] + $abc * $ab[0] - [1, 2]".
+Proof.
+  intros name val post fuel.
+  assert (H1 : word_name name) by word_name_tac.
+  assert (H2 : match post with c :: _ => is_word c = false /\ c <> c_lbrk | [] => True end)
+    by (split; [reflexivity | discriminate]).
+  assert (H3 : (length (ref_of name ++ post) < fuel)%nat) by lt_tac.
+  refine (conj H1 (conj H2 (conj H3 (conj (C05_subst_whole_token name val post fuel H1 H2 H3) _)))).
+  vm_compute. reflexivity.
+Qed.
+
 (* a variable name that is a prefix of another one is not substituted inside the longer reference *)
 Theorem C05_prefix_safe : forall a more val fuel, word_name a -> word_name more ->
   (length (ref_of (a ++ more)) < fuel)%nat ->
@@ -20,10 +44,30 @@ Theorem C05_prefix_safe : forall a more val fuel, word_name a -> word_name more 
 Proof. exact subst_prefix_safe. Qed.
 Print Assumptions C05_prefix_safe.
 
+Example C05_prefix_safe_nonvacuous :
+  let a := of_string "ab" in let more := of_string "c_1" in let val := of_string "7" in
+  let fuel := S (length (ref_of (a ++ more))) in
+  word_name a /\ word_name more /\ (length (ref_of (a ++ more)) < fuel)%nat /\
+  subst_token fuel (ref_of a) val (ref_of (a ++ more)) = of_string "$abc_1".
+Proof.
+  intros a more val fuel.
+  assert (H1 : word_name a) by word_name_tac. assert (H2 : word_name more) by word_name_tac.
+  assert (H3 : (length (ref_of (a ++ more)) < fuel)%nat) by lt_tac.
+  exact (conj H1 (conj H2 (conj H3 (C05_prefix_safe a more val fuel H1 H2 H3)))).
+Qed.
+
 (* text without the reference is left alone *)
 Theorem C05_subst_absent : forall r val e fuel, r <> [] -> contains r e = false -> subst_token fuel r val e = e.
 Proof. exact subst_absent. Qed.
 Print Assumptions C05_subst_absent.
+
+Example C05_subst_absent_nonvacuous :
+  let r := of_string "$x" in let e := of_string "1 + $y * x$ - $ x" in
+  r <> [] /\ contains r e = false /\ subst_token (S (length e)) r (of_string "7") e = e.
+Proof.
+  intros r e. assert (H1 : r <> []) by discriminate. assert (H2 : contains r e = false) by (vm_compute; reflexivity).
+  exact (conj H1 (conj H2 (C05_subst_absent r _ e _ H1 H2))).
+Qed.
 
 (* reference resolution terminates on every variable table, including self- and mutually-referential ones
    (repaired resolver: the inner while-loop remembers the reference texts it has tried, follows plain references
@@ -60,6 +104,15 @@ Proof. vm_compute. reflexivity. Qed.
 Theorem C05_undeclared : forall vars r, alookup (KS (ref_name r)) vars = None -> resolve_reference vars r = RNone.
 Proof. exact resolve_undeclared. Qed.
 Print Assumptions C05_undeclared.
+
+Example C05_undeclared_nonvacuous :
+  let vars := [(KS (of_string "x"), Lst [Leaf (SInt 5); Leaf (SInt 6)]); (KS (of_string "ab"), Leaf (SStr (of_string "$x")))] in
+  let r := of_string "$a[0]" in
+  alookup (KS (ref_name r)) vars = None /\ resolve_reference vars r = RNone.
+Proof.
+  intros vars r. assert (H : alookup (KS (ref_name r)) vars = None) by (vm_compute; reflexivity).
+  exact (conj H (C05_undeclared vars r H)).
+Qed.
 
 Example C05_cycle :
   let vars := [(KS (of_string "b"), Leaf (SStr (of_string "$c"))); (KS (of_string "c"), Leaf (SStr (of_string "$b")))] in
